@@ -182,6 +182,12 @@ class StringLiteral(Literal[str]):
     def __hash__(self) -> int:
         return hash(self.value)
 
+    def __str__(self) -> str:
+        # Liquid string literals have no escape sequences, so `repr()` is not
+        # suitable. Pick the quote that does not appear in the string.
+        quote = '"' if "'" in self.value and '"' not in self.value else "'"
+        return f"{quote}{self.value}{quote}"
+
     def __sizeof__(self) -> int:
         return sys.getsizeof(self.value)
 
